@@ -468,6 +468,12 @@ func runC04(c *Ctx) {
 			call.pad = strings.Repeat(string(rune('a'+t)), padLen)
 			call.msg = fmt.Sprintf("t%d.s%d:", t, s)
 			tk.calls = append(tk.calls, call)
+			switch {
+			case call.front == fePanicRecovered:
+				r.Probe("Panic/DPanic entry recovered by the task")
+			case call.front == feCheck && s%3 == 2:
+				r.Probe("Check/Write with a returning after-hook")
+			}
 		}
 		tasks = append(tasks, tk)
 	}
